@@ -307,8 +307,12 @@ impl Scenario for UrScenario {
         let modes: Vec<usize> = (0..tasks).map(|_| r.below(3)).collect(); // 2 = sequential, each receive polled once with a throw-away waker, then awaited
         let ask_eos = r.chance(1, 2);
         let est = 40 + (n as u64) * 10 + cuts.len() as u64 * 3;
+        // faults on the byte stream: undecodable records (the request gets an error, the others are unaffected) and a transport
+        // error between two chunks (the stream ends there; what follows must never be delivered as if it were contiguous)
+        let bad: Vec<usize> = if n > 0 && r.chance(1, 4) { (0..r.range(1, 2)).map(|_| r.below(n)).collect() } else { vec![] };
+        let err_at = if r.chance(1, 6) { json!(r.below(cuts.len() + 1)) } else { Value::Null };
         json!({
-            "w": w, "cap": cap, "n": n, "cuts": cuts, "owner": owner, "modes": modes,
+            "w": w, "cap": cap, "n": n, "cuts": cuts, "owner": owner, "modes": modes, "bad": bad, "err_at": err_at,
             "ask_eos": ask_eos, "order_seed": r.next_u64() >> 12,
             "sched": SchedSpec::draw(&mut r, est, 200_000),
         })
@@ -342,11 +346,17 @@ where
     let spec = SchedSpec::from_json(&p["sched"], explicit);
     let shape = format!("ur w{w} c{cap} n{n} k{} t{tasks} e{ask_eos}", cuts.len());
 
+    let bad: Vec<usize> = p.get("bad").map(|_| pvec(p, "bad")).unwrap_or_default();
+    let err_at: Option<usize> = p.get("err_at").and_then(Value::as_u64).map(|x| x as usize);
     let mut bytes = Vec::new();
     for i in 0..n {
-        bytes.extend_from_slice(&payload(9, i as u64, w));
+        if bad.contains(&i) {
+            bytes.extend(std::iter::repeat(crate::verif::msg::POISON).take(w));
+        } else {
+            bytes.extend_from_slice(&payload(9, i as u64, w));
+        }
     }
-    if tasks == 0 || owner.len() < n || owner.iter().any(|o| *o >= tasks) || cap < 2 {
+    if tasks == 0 || owner.len() < n || owner.iter().any(|o| *o >= tasks) || cap < 2 || bad.iter().any(|b| *b >= n) {
         return RunRes::invalid("ur: inconsistent receiver layout");
     }
     let mut chunks: Vec<Vec<u8>> = Vec::new();
@@ -360,6 +370,9 @@ where
         chunks.push(bytes[pos..].to_vec());
     }
 
+    // bytes that arrive before the injected transport error
+    let nchunks = chunks.len();
+    let delivered: usize = match err_at { Some(k) => chunks.iter().take(k).map(Vec::len).sum(), None => bytes.len() };
     let log = StdArc::new(StdMutex::new(UrLog::default()));
     let log2 = StdArc::clone(&log);
     let owner2 = owner.clone();
@@ -372,15 +385,24 @@ where
         let modes = modes2.clone();
         let chunks = chunks2.clone();
         shuttle::future::block_on(async move {
-            let (tx, rx) = ::tokio::sync::mpsc::unbounded_channel::<Vec<u8>>();
-            let stream = tokio_stream::wrappers::UnboundedReceiverStream::new(rx);
+            let (tx, rx) = ::tokio::sync::mpsc::unbounded_channel::<Result<Vec<u8>, std::io::Error>>();
+            // the transport's own adapter: ends the byte stream at the first error item
+            let stream = crate::helpers::LogErrors::new(tokio_stream::wrappers::UnboundedReceiverStream::new(rx));
             let recv = UnorderedReceiver::new(Box::pin(stream), NonZeroUsize::new(cap).unwrap());
             let mut handles = Vec::new();
             // the "network": delivers chunk after chunk, when the scheduler lets it
             handles.push(shuttle::future::spawn(async move {
-                for c in chunks {
-                    tx.send(c).unwrap();
+                for (k, c) in chunks.into_iter().enumerate() {
+                    if err_at == Some(k) {
+                        let _ = tx.send(Err(std::io::Error::other("injected transport error")));
+                        shuttle::future::yield_now().await;
+                    }
+                    // after the error the consumer may be gone: later chunks are offered all the same
+                    let _ = tx.send(Ok(c));
                     shuttle::future::yield_now().await;
+                }
+                if err_at.is_some_and(|k| k >= nchunks) {
+                    let _ = tx.send(Err(std::io::Error::other("injected transport error")));
                 }
                 drop(tx);
             }));
@@ -442,12 +464,18 @@ where
     let l = log.lock().unwrap();
     let nontrivial = outcome.decisions > 0 && n > 1;
     for (i, r) in &l.got {
+        let arrived = (*i + 1) * w <= delivered;
         match r {
-            Ok(b) if b[..] == payload(9, *i as u64, w)[..] => {}
+            Ok(b) if arrived && !bad.contains(i) && b[..] == payload(9, *i as u64, w)[..] => {}
+            Ok(b) if !arrived => {
+                return RunRes::violation("ur_message_after_transport_error",
+                    format!("recv({i}) returned {b:02x?} although only {delivered} bytes arrived before the transport error (record {i} ends at byte {})", (*i + 1) * w), shape, Some(outcome));
+            }
             Ok(b) => {
                 return RunRes::violation("ur_wrong_message",
-                    format!("recv({i}) returned {b:02x?}, expected {:02x?}", payload(9, *i as u64, w)), shape, Some(outcome));
+                    format!("recv({i}) returned {b:02x?}, expected {}", if bad.contains(i) { "a deserialization error".to_string() } else { format!("{:02x?}", payload(9, *i as u64, w)) }), shape, Some(outcome));
             }
+            Err(_) if !arrived || bad.contains(i) => {}
             Err(e) => {
                 return RunRes::violation("ur_spurious_error", format!("recv({i}) of {n} failed: {e}"), shape, Some(outcome));
             }
@@ -460,9 +488,22 @@ where
         "finished" => {
             let mut seen: Vec<usize> = l.got.iter().map(|x| x.0).collect();
             seen.sort_unstable();
-            if seen != (0..n).collect::<Vec<_>>() || (ask_eos && l.eos.is_none()) {
+            if seen != (0..n).collect::<Vec<_>>() || (ask_eos && l.eos.is_none() && err_at.is_none()) {
                 return RunRes::violation("ur_lost_request", format!("finished with {} of {n} receives resolved", seen.len()), shape, Some(outcome));
             }
+        }
+        "deadlock" if err_at.is_some() && {
+            // a stream that ends early fails the request that was next in line and leaves later requests pending (nothing more
+            // can ever arrive for them); the statement makes no promise for records that never arrived
+            let first_missing = delivered / w;
+            let resolved: Vec<usize> = l.got.iter().map(|x| x.0).collect();
+            (0..n).filter(|i| !resolved.contains(i)).all(|i| i >= first_missing)
+        } => {
+            let mut res = RunRes::pass(shape, nontrivial, Some(outcome));
+            res.probe("requests_pending_after_early_end_of_stream", 1);
+            res.fault("F3_transport_error_mid_stream", 1);
+            res.fault("F7_undecodable_record", bad.len() as u64);
+            return res;
         }
         "deadlock" | "stepcap" => {
             return RunRes::violation("ur_no_progress",
@@ -477,6 +518,8 @@ where
     res.probe("requests_ahead_of_capacity", l.ahead_of_capacity);
     res.probe("empty_chunks", cuts.iter().filter(|c| **c == 0).count() as u64);
     res.fault("F4_fragmentation", 1);
+    res.fault("F7_undecodable_record", bad.len() as u64);
+    res.fault("F3_transport_error_mid_stream", u64::from(err_at.is_some()));
     res
 }
 
